@@ -1,3 +1,8 @@
+/-
+  Helper lemmas about the array primitives of `OHVerif.Model.Prim`: for every primitive the
+  `ok` value inside its precondition, its length and element-wise meaning, and the panic
+  outside of it.  Used by `OHVerif.Props.C07`.
+-/
 import OHVerif.Model.Prim
 
 namespace OH.Prim
@@ -117,3 +122,1100 @@ theorem splice_getElem? (xs v : List α) (a b : Nat) (h : a ≤ b ∧ b ≤ xs.l
     · rw [if_neg (by omega), if_neg (by omega), List.getElem?_drop]
       congr 1; omega
 
+
+/-! ### writeAll -/
+
+theorem writeAll_length (y : List α) (ps : List (Nat × α)) :
+    (writeAll y ps).length = y.length := by
+  induction ps generalizing y with
+  | nil => rfl
+  | cons p rest ih => obtain ⟨i, x⟩ := p; simp [writeAll, ih]
+
+/-- the value of the last pair of `ps` whose index is `k` -/
+def lastWrite (k : Nat) (ps : List (Nat × α)) : Option α :=
+  (ps.findRev? (fun p => p.1 == k)).map (·.2)
+
+theorem lastWrite_nil (k : Nat) : lastWrite k ([] : List (Nat × α)) = none := rfl
+
+theorem lastWrite_cons (k : Nat) (p : Nat × α) (ps : List (Nat × α)) :
+    lastWrite k (p :: ps) = (lastWrite k ps).or (if p.1 = k then some p.2 else none) := by
+  unfold lastWrite
+  rw [List.findRev?]
+  cases h : List.findRev? (fun p => p.1 == k) ps with
+  | some b => simp
+  | none =>
+    by_cases hp : p.1 = k <;> simp [hp]
+
+theorem lastWrite_eq_none_iff (k : Nat) (ps : List (Nat × α)) :
+    lastWrite k ps = none ↔ ∀ p ∈ ps, p.1 ≠ k := by
+  induction ps with
+  | nil => simp [lastWrite_nil]
+  | cons p rest ih =>
+    rw [lastWrite_cons, Option.or_eq_none_iff, ih]
+    by_cases hp : p.1 = k <;> simp [hp]
+
+theorem lastWrite_eq_some_iff (k : Nat) (ps : List (Nat × α)) (v : α) :
+    lastWrite k ps = some v ↔
+      ∃ j, ∃ h : j < ps.length, ps[j].1 = k ∧ ps[j].2 = v ∧
+        ∀ j' (h' : j' < ps.length), j < j' → ps[j'].1 ≠ k := by
+  induction ps with
+  | nil => simp [lastWrite_nil]
+  | cons p rest ih =>
+    rw [lastWrite_cons]
+    constructor
+    · intro h
+      cases hr : lastWrite k rest with
+      | some w =>
+        rw [hr] at h
+        simp only [Option.some_or] at h
+        injection h with h
+        subst h
+        obtain ⟨j, hj, h1, h2, h3⟩ := (ih).1 hr
+        refine ⟨j + 1, by simp only [List.length_cons]; omega, by simpa using h1, by simpa using h2, ?_⟩
+        intro j' h' hlt
+        obtain ⟨j'', rfl⟩ : ∃ j'', j' = j'' + 1 := ⟨j' - 1, by omega⟩
+        simp only [List.getElem_cons_succ]
+        exact h3 j'' (by simpa using h') (by omega)
+      | none =>
+        rw [hr] at h
+        simp only [Option.none_or] at h
+        by_cases hp : p.1 = k
+        · rw [if_pos hp] at h
+          injection h with h
+          refine ⟨0, by simp, by simpa using hp, by simpa using h, ?_⟩
+          intro j' h' hlt
+          obtain ⟨j'', rfl⟩ : ∃ j'', j' = j'' + 1 := ⟨j' - 1, by omega⟩
+          simp only [List.getElem_cons_succ]
+          exact (lastWrite_eq_none_iff k rest).1 hr _ (List.getElem_mem _)
+        · rw [if_neg hp] at h; cases h
+    · rintro ⟨j, hj, h1, h2, h3⟩
+      cases j with
+      | zero =>
+        have hn : lastWrite k rest = none := by
+          rw [lastWrite_eq_none_iff]
+          intro q hq
+          obtain ⟨m, hm, rfl⟩ := List.getElem_of_mem hq
+          have := h3 (m + 1) (by simp only [List.length_cons]; omega) (by omega)
+          simpa using this
+        simp only [List.getElem_cons_zero] at h1 h2
+        rw [hn, if_pos h1, h2]; rfl
+      | succ j =>
+        have : lastWrite k rest = some v := by
+          rw [ih]
+          refine ⟨j, by simpa using hj, by simpa using h1, by simpa using h2, ?_⟩
+          intro j' h' hlt
+          have := h3 (j' + 1) (by simp only [List.length_cons]; omega) (by omega)
+          simpa using this
+        rw [this]; rfl
+
+theorem writeAll_getElem? (y : List α) (ps : List (Nat × α)) (k : Nat) :
+    (writeAll y ps)[k]? = if k < y.length then (lastWrite k ps).or y[k]? else none := by
+  induction ps generalizing y with
+  | nil =>
+    simp only [writeAll, lastWrite_nil, Option.none_or]
+    split
+    · rfl
+    · exact List.getElem?_eq_none (by omega)
+  | cons p rest ih =>
+    obtain ⟨i, x⟩ := p
+    rw [writeAll, ih, lastWrite_cons, List.length_set]
+    by_cases hk : k < y.length
+    · simp only [if_pos hk, List.getElem?_set]
+      cases lastWrite k rest with
+      | some w => simp
+      | none =>
+        simp only [Option.none_or]
+        by_cases hik : i = k
+        · subst hik; simp [hk]
+        · simp [hik]
+    · simp only [if_neg hk]
+
+/-- position `k` is never written: it keeps its old value -/
+theorem writeAll_getElem?_of_not_mem (y : List α) (ps : List (Nat × α)) (k : Nat)
+    (h : ∀ p ∈ ps, p.1 ≠ k) : (writeAll y ps)[k]? = y[k]? := by
+  rw [writeAll_getElem?, (lastWrite_eq_none_iff k ps).2 h, Option.none_or]
+  split
+  · rfl
+  · exact (List.getElem?_eq_none (by omega)).symm
+
+/-- position `k < y.length` holds the value of the last pair whose index is `k` -/
+theorem writeAll_getElem?_of_last (y : List α) (ps : List (Nat × α)) (k : Nat) (hk : k < y.length)
+    (j : Nat) (hj : j < ps.length) (hjk : ps[j].1 = k)
+    (hlast : ∀ j' (h' : j' < ps.length), j < j' → ps[j'].1 ≠ k) :
+    (writeAll y ps)[k]? = some ps[j].2 := by
+  rw [writeAll_getElem?, if_pos hk,
+    (lastWrite_eq_some_iff k ps ps[j].2).2 ⟨j, hj, hjk, rfl, hlast⟩]
+  rfl
+
+/-! ### scatter -/
+
+theorem forall_mem_take_iff (idx : List Nat) (m : Nat) (hm : m ≤ idx.length) (P : Nat → Prop) :
+    (∀ i ∈ idx.take m, P i) ↔ ∀ j (h : j < m), P (idx[j]'(Nat.lt_of_lt_of_le h hm)) := by
+  constructor
+  · intro h j hj
+    apply h
+    rw [List.mem_take_iff_getElem]
+    exact ⟨j, by omega, rfl⟩
+  · intro h i hi
+    rw [List.mem_take_iff_getElem] at hi
+    obtain ⟨j, hj, rfl⟩ := hi
+    exact h j (by omega)
+
+theorem scatter_nil (B : Backend) (idx : List Nat) (n : Nat) :
+    scatter B ([] : List α) idx n =
+      if idx = [] then .ok [] else .panic "scatter:assert-empty" := by
+  cases idx <;> rfl
+
+/-- the filler value used by `scatter` for the non-empty source `x0 :: tl` -/
+def scatterFill (B : Backend) (x0 : α) (tl : List α) : α :=
+  (x0 :: tl).getD (B.fillerIdx (tl.length + 1)) x0
+
+theorem scatterFill_mem (B : Backend) (x0 : α) (tl : List α) :
+    scatterFill B x0 tl ∈ x0 :: tl := by
+  unfold scatterFill
+  rw [List.getD_eq_getElem?_getD]
+  cases h : (x0 :: tl)[B.fillerIdx (tl.length + 1)]? with
+  | none => simp
+  | some v => simpa using List.mem_of_getElem? h
+
+theorem scatterFill_eq (B : Backend) (x0 : α) (tl : List α)
+    (h : B.fillerIdx (tl.length + 1) < tl.length + 1) :
+    (x0 :: tl)[B.fillerIdx (tl.length + 1)]? = some (scatterFill B x0 tl) := by
+  unfold scatterFill
+  rw [List.getD_eq_getElem?_getD, List.getElem?_eq_getElem (by simpa using h)]
+  rfl
+
+theorem scatter_cons_ok (B : Backend) (x0 : α) (tl : List α) (idx : List Nat) (n : Nat)
+    (hlen : tl.length + 1 ≤ idx.length) (hidx : ∀ i ∈ idx.take (tl.length + 1), i < n) :
+    scatter B (x0 :: tl) idx n =
+      .ok (writeAll (List.replicate n (scatterFill B x0 tl))
+        ((idx.take (tl.length + 1)).zip (x0 :: tl))) := by
+  unfold scatter scatterFill
+  simp only [List.length_cons]
+  rw [if_pos]
+  refine ⟨hlen, ?_⟩
+  simpa using hidx
+
+theorem scatter_cons_panic (B : Backend) (x0 : α) (tl : List α) (idx : List Nat) (n : Nat)
+    (h : ¬ (tl.length + 1 ≤ idx.length ∧ ∀ i ∈ idx.take (tl.length + 1), i < n)) :
+    scatter B (x0 :: tl) idx n = .panic "scatter:index" := by
+  unfold scatter
+  simp only [List.length_cons]
+  rw [if_neg]
+  intro h'
+  apply h
+  refine ⟨h'.1, ?_⟩
+  simpa using h'.2
+
+/-- Full description of `scatter` on a non-empty source inside its precondition. -/
+theorem scatter_ok_spec (B : Backend) (xs : List α) (idx : List Nat) (n : Nat) (hne : xs ≠ [])
+    (hlen : xs.length ≤ idx.length) (hidx : ∀ i ∈ idx.take xs.length, i < n) :
+    ∃ r fill, scatter B xs idx n = .ok r ∧ r.length = n ∧ fill ∈ xs ∧
+      (B.fillerIdx xs.length < xs.length → xs[B.fillerIdx xs.length]? = some fill) ∧
+      (∀ j (hj : j < xs.length),
+        (∀ j' (hj' : j' < xs.length), j < j' →
+          idx[j']'(Nat.lt_of_lt_of_le hj' hlen) ≠ idx[j]'(Nat.lt_of_lt_of_le hj hlen)) →
+        r[idx[j]'(Nat.lt_of_lt_of_le hj hlen)]? = some xs[j]) ∧
+      (∀ k, k < n → (∀ j (hj : j < xs.length), idx[j]'(Nat.lt_of_lt_of_le hj hlen) ≠ k) →
+        r[k]? = some fill) := by
+  cases xs with
+  | nil => exact absurd rfl hne
+  | cons x0 tl =>
+    simp only [List.length_cons] at hlen hidx ⊢
+    refine ⟨_, scatterFill B x0 tl, scatter_cons_ok B x0 tl idx n hlen hidx, ?_,
+      scatterFill_mem B x0 tl, scatterFill_eq B x0 tl, ?_, ?_⟩
+    · rw [writeAll_length, List.length_replicate]
+    · intro j hj hlast
+      have hjn : idx[j]'(by omega) < n :=
+        (forall_mem_take_iff idx (tl.length + 1) hlen (· < n)).1 hidx j hj
+      have hpl : ((idx.take (tl.length + 1)).zip (x0 :: tl)).length = tl.length + 1 := by
+        simp only [List.length_zip, List.length_take, List.length_cons]; omega
+      have := writeAll_getElem?_of_last (List.replicate n (scatterFill B x0 tl))
+        ((idx.take (tl.length + 1)).zip (x0 :: tl)) (idx[j]'(by omega))
+        (by simpa using hjn) j (by omega) (by simp) (by
+          intro j' h' hlt
+          simp only [List.getElem_zip, List.getElem_take]
+          exact hlast j' (by omega) hlt)
+      simpa using this
+    · intro k hk hnot
+      rw [writeAll_getElem?_of_not_mem]
+      · simp [hk]
+      · intro p hp
+        obtain ⟨j, hj, rfl⟩ := List.getElem_of_mem hp
+        have hj' : j < tl.length + 1 := by
+          simp only [List.length_zip, List.length_take, List.length_cons] at hj; omega
+        simp only [List.getElem_zip, List.getElem_take]
+        exact hnot j hj'
+
+/-! ### scatterAssign / scatterAssignConstant -/
+
+theorem scatterAssign_ok (self : List α) (ixs : List Nat) (values : List α)
+    (h : ∀ p ∈ ixs.zip values, p.1 < self.length) :
+    scatterAssign self ixs values = .ok (writeAll self (ixs.zip values)) := by
+  unfold scatterAssign
+  simp only
+  rw [if_pos]
+  simpa using h
+
+theorem scatterAssign_panic (self : List α) (ixs : List Nat) (values : List α)
+    (h : ¬ ∀ p ∈ ixs.zip values, p.1 < self.length) :
+    scatterAssign self ixs values = .panic "scatter_assign:index" := by
+  unfold scatterAssign
+  simp only
+  rw [if_neg]
+  intro h'
+  apply h
+  simpa using h'
+
+theorem lastWrite_map_const (k : Nat) (ixs : List Nat) (c : α) :
+    lastWrite k (ixs.map (fun i => (i, c))) = if k ∈ ixs then some c else none := by
+  induction ixs with
+  | nil => simp [lastWrite_nil]
+  | cons i rest ih =>
+    rw [List.map_cons, lastWrite_cons, ih]
+    by_cases h1 : k ∈ rest
+    · simp [h1]
+    · by_cases h2 : i = k
+      · subst h2; simp [h1]
+      · have : ¬ k = i := fun h => h2 h.symm
+        simp [h1, h2, this]
+
+theorem scatterAssignConstant_ok (self : List α) (ixs : List Nat) (c : α)
+    (h : ∀ i ∈ ixs, i < self.length) :
+    scatterAssignConstant self ixs c = .ok (writeAll self (ixs.map (fun i => (i, c)))) := by
+  unfold scatterAssignConstant
+  rw [if_pos]
+  simpa using h
+
+theorem scatterAssignConstant_panic (self : List α) (ixs : List Nat) (c : α)
+    (h : ∃ i ∈ ixs, self.length ≤ i) :
+    scatterAssignConstant self ixs c = .panic "scatter_assign_constant:index" := by
+  unfold scatterAssignConstant
+  rw [if_neg]
+  simp only [List.all_eq_true, decide_eq_true_eq]
+  intro h'
+  obtain ⟨i, hi, hle⟩ := h
+  exact Nat.lt_irrefl _ (Nat.lt_of_lt_of_le (h' i hi) hle)
+
+theorem writeAll_const_getElem? (self : List α) (ixs : List Nat) (c : α)
+    (h : ∀ i ∈ ixs, i < self.length) (k : Nat) :
+    (writeAll self (ixs.map (fun i => (i, c))))[k]? = if k ∈ ixs then some c else self[k]? := by
+  rw [writeAll_getElem?, lastWrite_map_const]
+  by_cases hk : k ∈ ixs
+  · simp [hk, h k hk]
+  · simp only [if_neg hk, Option.none_or]
+    split
+    · rfl
+    · exact (List.getElem?_eq_none (by omega)).symm
+
+/-! ### scatterSubAssign -/
+
+/-- the total subtracted from position `k`: `Σ { rhs[i] | i < ixs.length, ixs[i] = k }` -/
+def subTotal (k : Nat) (ixs rhs : List Nat) : Nat :=
+  (((ixs.zip rhs).filter (fun p => p.1 == k)).map (·.2)).sum
+
+theorem subTotal_nil (k : Nat) (rhs : List Nat) : subTotal k [] rhs = 0 := by
+  simp [subTotal]
+
+theorem subTotal_cons (k i r : Nat) (ixs rhs : List Nat) :
+    subTotal k (i :: ixs) (r :: rhs) = (if i = k then r else 0) + subTotal k ixs rhs := by
+  unfold subTotal
+  by_cases h : i = k <;> simp [h]
+
+theorem subTotal_eq_zero (k : Nat) (ixs rhs : List Nat) (h : ∀ i ∈ ixs, i ≠ k) :
+    subTotal k ixs rhs = 0 := by
+  induction ixs generalizing rhs with
+  | nil => exact subTotal_nil k rhs
+  | cons i ixs ih =>
+    cases rhs with
+    | nil => simp [subTotal]
+    | cons r rhs =>
+      rw [subTotal_cons, if_neg (h i (by simp)), ih rhs (fun j hj => h j (by simp [hj]))]
+
+theorem scatterSubAssign_nil (self rhs : List Nat) : scatterSubAssign self [] rhs = .ok self := by
+  unfold scatterSubAssign; rfl
+
+theorem scatterSubAssign_cons_nil (self : List Nat) (i : Nat) (ixs : List Nat) :
+    scatterSubAssign self (i :: ixs) [] = .panic "scatter_sub_assign:rhs-index" := by
+  unfold scatterSubAssign; rfl
+
+theorem scatterSubAssign_cons_cons (self : List Nat) (i : Nat) (ixs : List Nat) (r : Nat)
+    (rhs : List Nat) :
+    scatterSubAssign self (i :: ixs) (r :: rhs) =
+      match self[i]? with
+      | Option.none => .panic "scatter_sub_assign:index"
+      | some v =>
+        if r ≤ v then scatterSubAssign (self.set i (v - r)) ixs rhs
+        else .panic "scatter_sub_assign:underflow" := by
+  rw [scatterSubAssign]
+  cases self[i]? <;> rfl
+
+theorem scatterSubAssign_ne_none (self ixs rhs : List Nat) :
+    scatterSubAssign self ixs rhs ≠ .none := by
+  induction ixs generalizing self rhs with
+  | nil => rw [scatterSubAssign_nil]; intro h; cases h
+  | cons i ixs ih =>
+    cases rhs with
+    | nil => rw [scatterSubAssign_cons_nil]; intro h; cases h
+    | cons r rhs =>
+      rw [scatterSubAssign_cons_cons]
+      cases self[i]? with
+      | none => intro h; cases h
+      | some v =>
+        simp only
+        split
+        · exact ih _ _
+        · intro h; cases h
+
+theorem scatterSubAssign_sound (self ixs rhs r : List Nat)
+    (h : scatterSubAssign self ixs rhs = .ok r) :
+    ixs.length ≤ rhs.length ∧ (∀ i ∈ ixs, i < self.length) ∧ r.length = self.length ∧
+      ∀ k v, self[k]? = some v → ∃ w, r[k]? = some w ∧ w + subTotal k ixs rhs = v := by
+  induction ixs generalizing self rhs with
+  | nil =>
+    rw [scatterSubAssign_nil] at h
+    injection h with h
+    subst h
+    refine ⟨by simp, by simp, rfl, ?_⟩
+    intro k v hv
+    exact ⟨v, hv, by rw [subTotal_nil]; rfl⟩
+  | cons i ixs ih =>
+    cases rhs with
+    | nil => rw [scatterSubAssign_cons_nil] at h; cases h
+    | cons x rhs =>
+      rw [scatterSubAssign_cons_cons] at h
+      cases hi : self[i]? with
+      | none => rw [hi] at h; cases h
+      | some v =>
+        rw [hi] at h
+        simp only at h
+        by_cases hxv : x ≤ v
+        · rw [if_pos hxv] at h
+          obtain ⟨h1, h2, h3, h4⟩ := ih _ _ h
+          have hil : i < self.length := by
+            apply Classical.byContradiction
+            intro hn
+            rw [List.getElem?_eq_none (by omega)] at hi
+            cases hi
+          rw [List.length_set] at h2 h3
+          refine ⟨by simp only [List.length_cons]; omega, ?_, h3, ?_⟩
+          · intro j hj
+            rcases List.mem_cons.1 hj with rfl | hj
+            · exact hil
+            · exact h2 j hj
+          · intro k w hw
+            rw [subTotal_cons]
+            by_cases hik : i = k
+            · subst hik
+              rw [hi] at hw
+              injection hw with hw
+              subst hw
+              obtain ⟨w, hw1, hw2⟩ := h4 i (v - x) (by simp [hil])
+              exact ⟨w, hw1, by rw [if_pos rfl]; omega⟩
+            · obtain ⟨w', hw1, hw2⟩ := h4 k w (by rw [List.getElem?_set_ne hik]; exact hw)
+              exact ⟨w', hw1, by rw [if_neg hik]; omega⟩
+        · rw [if_neg hxv] at h; cases h
+
+theorem scatterSubAssign_complete (self ixs rhs : List Nat)
+    (hlen : ixs.length ≤ rhs.length) (hidx : ∀ i ∈ ixs, i < self.length)
+    (hle : ∀ k v, self[k]? = some v → subTotal k ixs rhs ≤ v) :
+    ∃ r, scatterSubAssign self ixs rhs = .ok r := by
+  induction ixs generalizing self rhs with
+  | nil => exact ⟨self, scatterSubAssign_nil self rhs⟩
+  | cons i ixs ih =>
+    cases rhs with
+    | nil => simp at hlen
+    | cons x rhs =>
+      have hil : i < self.length := hidx i (by simp)
+      have hi : self[i]? = some self[i] := List.getElem?_eq_getElem hil
+      have hx := hle i _ hi
+      rw [subTotal_cons, if_pos rfl] at hx
+      rw [scatterSubAssign_cons_cons, hi]
+      simp only
+      rw [if_pos (by omega)]
+      apply ih
+      · simpa using hlen
+      · intro j hj
+        rw [List.length_set]
+        exact hidx j (by simp [hj])
+      · intro k v hv
+        by_cases hik : i = k
+        · subst hik
+          rw [List.getElem?_set_self hil] at hv
+          injection hv with hv
+          omega
+        · rw [List.getElem?_set_ne hik] at hv
+          have := hle k v hv
+          rw [subTotal_cons, if_neg hik] at this
+          omega
+
+/-! ### arange / cumulativeSum / sum -/
+
+theorem arange_ok (start stop : Nat) (h : start ≤ stop) :
+    arange start stop = .ok (List.range' start (stop - start)) := by
+  simp [arange, h]
+
+theorem arange_panic (start stop : Nat) (h : stop < start) :
+    arange start stop = .panic "arange:assert" := by
+  simp [arange, Nat.not_le.2 h]
+
+theorem range'_getElem?_of_lt (start n k : Nat) (hk : k < n) :
+    (List.range' start n)[k]? = some (start + k) := by
+  rw [List.getElem?_range' hk, Nat.one_mul]
+
+theorem cumsumFrom_length (a : Nat) (xs : List Nat) : (cumsumFrom a xs).length = xs.length + 1 := by
+  induction xs generalizing a with
+  | nil => rfl
+  | cons x xs ih => simp [cumsumFrom, ih]
+
+theorem cumsumFrom_getElem? (a : Nat) (xs : List Nat) (k : Nat) (hk : k ≤ xs.length) :
+    (cumsumFrom a xs)[k]? = some (a + (xs.take k).sum) := by
+  induction xs generalizing a k with
+  | nil =>
+    have : k = 0 := by simpa using hk
+    subst this; simp [cumsumFrom]
+  | cons x xs ih =>
+    cases k with
+    | zero => simp [cumsumFrom]
+    | succ k =>
+      simp only [cumsumFrom, List.getElem?_cons_succ, List.take_succ_cons, List.sum_cons]
+      rw [ih (a + x) k (by simpa using hk)]
+      congr 1; omega
+
+theorem cumulativeSum_length (xs : List Nat) : (cumulativeSum xs).length = xs.length + 1 :=
+  cumsumFrom_length 0 xs
+
+theorem cumulativeSum_getElem? (xs : List Nat) (k : Nat) (hk : k ≤ xs.length) :
+    (cumulativeSum xs)[k]? = some ((xs.take k).sum) := by
+  rw [cumulativeSum, cumsumFrom_getElem? 0 xs k hk, Nat.zero_add]
+
+theorem cumulativeSum_getElem?_none (xs : List Nat) (k : Nat) (hk : xs.length < k) :
+    (cumulativeSum xs)[k]? = none :=
+  List.getElem?_eq_none (by rw [cumulativeSum_length]; omega)
+
+theorem sum_eq (xs : List Nat) : Prim.sum xs = xs.sum := by
+  rw [Prim.sum, List.sum_eq_foldl]
+
+/-! ### repeat -/
+
+theorem repeatP_eq (counts : List Nat) (x : List α) :
+    repeatP counts x = (List.zipWith List.replicate counts x).flatten := by
+  induction counts generalizing x with
+  | nil => simp [repeatP]
+  | cons k ks ih =>
+    cases x with
+    | nil => simp [repeatP]
+    | cons a x => simp [repeatP, ih]
+
+theorem repeatP_length (counts : List Nat) (x : List α) (h : counts.length = x.length) :
+    (repeatP counts x).length = counts.sum := by
+  induction counts generalizing x with
+  | nil => simp [repeatP]
+  | cons k ks ih =>
+    cases x with
+    | nil => simp at h
+    | cons a x => simp [repeatP, ih x (by simpa using h)]
+
+theorem repeat_ok (counts : List Nat) (x : List α) (h : counts.length = x.length) :
+    «repeat» counts x = .ok ((List.zipWith List.replicate counts x).flatten) := by
+  rw [«repeat», if_pos h, repeatP_eq]
+
+theorem repeat_panic (counts : List Nat) (x : List α) (h : counts.length ≠ x.length) :
+    «repeat» counts x = .panic "repeat:assert-len" := by
+  rw [«repeat», if_neg h]
+
+/-! ### quotRem / mulConstantAdd / add -/
+
+theorem quotRem_ok (xs : List Nat) (d : Nat) (h : d ≠ 0) :
+    quotRem xs d = .ok (xs.map (· / d), xs.map (· % d)) := by
+  rw [quotRem, if_pos h]
+
+theorem quotRem_panic (xs : List Nat) : quotRem xs 0 = .panic "quot_rem:assert" := by
+  simp [quotRem]
+
+theorem mulConstantAdd_ok (xs : List Nat) (c : Nat) (ys : List Nat) (h : xs.length = ys.length) :
+    mulConstantAdd xs c ys = .ok (List.zipWith (fun s x => s * c + x) xs ys) := by
+  rw [mulConstantAdd, if_pos h]
+
+theorem mulConstantAdd_panic (xs : List Nat) (c : Nat) (ys : List Nat)
+    (h : xs.length ≠ ys.length) :
+    mulConstantAdd xs c ys = .panic "mul_constant_add:assert-len" := by
+  rw [mulConstantAdd, if_neg h]
+
+theorem add_ok (xs ys : List Nat) (h : xs.length = ys.length) :
+    add xs ys = .ok (List.zipWith (· + ·) xs ys) := by
+  rw [add, if_pos h]
+
+theorem add_panic (xs ys : List Nat) (h : xs.length ≠ ys.length) :
+    add xs ys = .panic "add:assert-len" := by
+  rw [add, if_neg h]
+
+/-! ### sub -/
+
+theorem subP_ok (xs ys : List Nat) (h : ∀ p ∈ xs.zip ys, p.2 ≤ p.1) :
+    subP xs ys = .ok (List.zipWith (· - ·) xs ys) := by
+  induction xs generalizing ys with
+  | nil => simp [subP]
+  | cons x xs ih =>
+    cases ys with
+    | nil => simp [subP]
+    | cons y ys =>
+      have hxy : y ≤ x := h (x, y) (by simp)
+      rw [subP, if_pos hxy, ih ys (fun p hp => h p (by simp [hp]))]
+      rfl
+
+theorem subP_panic (xs ys : List Nat) (h : ∃ p ∈ xs.zip ys, p.1 < p.2) :
+    subP xs ys = .panic "sub:underflow" := by
+  induction xs generalizing ys with
+  | nil => simp at h
+  | cons x xs ih =>
+    cases ys with
+    | nil => simp at h
+    | cons y ys =>
+      rw [subP]
+      by_cases hxy : y ≤ x
+      · rw [if_pos hxy, ih ys]
+        · rfl
+        · obtain ⟨p, hp, hlt⟩ := h
+          simp only [List.zip_cons_cons, List.mem_cons] at hp
+          rcases hp with rfl | hp
+          · simp only at hlt; omega
+          · exact ⟨p, hp, hlt⟩
+      · rw [if_neg hxy]
+
+theorem forall_mem_zip_iff (xs ys : List Nat) (P : Nat → Nat → Prop) :
+    (∀ p ∈ xs.zip ys, P p.1 p.2) ↔
+      ∀ k (h1 : k < xs.length) (h2 : k < ys.length), P xs[k] ys[k] := by
+  constructor
+  · intro h k h1 h2
+    have : (xs[k], ys[k]) ∈ xs.zip ys := by
+      rw [List.mem_iff_getElem]
+      exact ⟨k, by simp only [List.length_zip]; omega, by simp⟩
+    exact h _ this
+  · intro h p hp
+    obtain ⟨k, hk, rfl⟩ := List.getElem_of_mem hp
+    simp only [List.length_zip] at hk
+    simp only [List.getElem_zip]
+    exact h k (by omega) (by omega)
+
+theorem sub_ok (xs ys : List Nat) (hlen : xs.length = ys.length)
+    (h : ∀ k (h1 : k < xs.length) (h2 : k < ys.length), ys[k] ≤ xs[k]) :
+    sub xs ys = .ok (List.zipWith (· - ·) xs ys) := by
+  rw [sub, if_pos hlen]
+  exact subP_ok xs ys ((forall_mem_zip_iff xs ys (fun a b => b ≤ a)).2 h)
+
+theorem sub_panic_len (xs ys : List Nat) (hlen : xs.length ≠ ys.length) :
+    sub xs ys = .panic "sub:assert-len" := by
+  rw [sub, if_neg hlen]
+
+theorem sub_panic_underflow (xs ys : List Nat) (hlen : xs.length = ys.length)
+    (h : ∃ k, ∃ (h1 : k < xs.length) (h2 : k < ys.length), xs[k] < ys[k]) :
+    sub xs ys = .panic "sub:underflow" := by
+  rw [sub, if_pos hlen]
+  apply subP_panic
+  obtain ⟨k, h1, h2, hlt⟩ := h
+  refine ⟨(xs[k], ys[k]), ?_, hlt⟩
+  rw [List.mem_iff_getElem]
+  exact ⟨k, by simp only [List.length_zip]; omega, by simp⟩
+
+theorem sub_ok_iff (xs ys r : List Nat) :
+    sub xs ys = .ok r ↔
+      xs.length = ys.length ∧
+      (∀ k (h1 : k < xs.length) (h2 : k < ys.length), ys[k] ≤ xs[k]) ∧
+      r = List.zipWith (· - ·) xs ys := by
+  constructor
+  · intro h
+    by_cases hlen : xs.length = ys.length
+    · by_cases hle : ∀ k (h1 : k < xs.length) (h2 : k < ys.length), ys[k] ≤ xs[k]
+      · rw [sub_ok xs ys hlen hle] at h
+        injection h with h
+        exact ⟨hlen, hle, h.symm⟩
+      · rw [sub_panic_underflow xs ys hlen] at h
+        · cases h
+        · apply Classical.byContradiction
+          intro hn
+          apply hle
+          intro k h1 h2
+          apply Classical.byContradiction
+          intro hlt
+          exact hn ⟨k, h1, h2, by omega⟩
+    · rw [sub_panic_len xs ys hlen] at h; cases h
+  · rintro ⟨hlen, hle, rfl⟩
+    exact sub_ok xs ys hlen hle
+
+/-! ### bincount / zero / max -/
+
+theorem bincount_ok (xs : List Nat) (size : Nat) (h : ∀ i ∈ xs, i < size) :
+    bincount xs size = .ok ((List.range size).map (fun v => xs.count v)) := by
+  rw [bincount, if_pos]
+  simpa using h
+
+theorem bincount_panic (xs : List Nat) (size : Nat) (h : ∃ i ∈ xs, size ≤ i) :
+    bincount xs size = .panic "bincount:index" := by
+  rw [bincount, if_neg]
+  simp only [List.all_eq_true, decide_eq_true_eq]
+  intro h'
+  obtain ⟨i, hi, hle⟩ := h
+  exact Nat.lt_irrefl _ (Nat.lt_of_lt_of_le (h' i hi) hle)
+
+theorem bincount_getElem? (xs : List Nat) (size v : Nat) (hv : v < size) :
+    ((List.range size).map (fun v => xs.count v))[v]? = some (xs.count v) := by
+  simp [List.getElem?_map, List.getElem?_range hv]
+
+theorem mem_zeroFrom (a : Nat) (xs : List Nat) (i : Nat) :
+    i ∈ zeroFrom a xs ↔ a ≤ i ∧ xs[i - a]? = some 0 := by
+  induction xs generalizing a with
+  | nil => simp [zeroFrom]
+  | cons x xs ih =>
+    unfold zeroFrom
+    by_cases hx : x = 0
+    · rw [if_pos hx, List.mem_cons, ih]
+      constructor
+      · rintro (rfl | ⟨h1, h2⟩)
+        · simp [hx]
+        · refine ⟨by omega, ?_⟩
+          have : i - a = (i - (a + 1)) + 1 := by omega
+          rw [this, List.getElem?_cons_succ]; exact h2
+      · rintro ⟨h1, h2⟩
+        by_cases hia : i = a
+        · exact Or.inl hia
+        · refine Or.inr ⟨by omega, ?_⟩
+          have : i - a = (i - (a + 1)) + 1 := by omega
+          rw [this, List.getElem?_cons_succ] at h2; exact h2
+    · rw [if_neg hx, ih]
+      constructor
+      · rintro ⟨h1, h2⟩
+        refine ⟨by omega, ?_⟩
+        have : i - a = (i - (a + 1)) + 1 := by omega
+        rw [this, List.getElem?_cons_succ]; exact h2
+      · rintro ⟨h1, h2⟩
+        have hia : i ≠ a := by
+          rintro rfl
+          simp at h2; exact hx h2
+        refine ⟨by omega, ?_⟩
+        have : i - a = (i - (a + 1)) + 1 := by omega
+        rw [this, List.getElem?_cons_succ] at h2; exact h2
+
+theorem zeroFrom_pairwise (a : Nat) (xs : List Nat) : (zeroFrom a xs).Pairwise (· < ·) := by
+  induction xs generalizing a with
+  | nil => simp [zeroFrom]
+  | cons x xs ih =>
+    unfold zeroFrom
+    split
+    · rw [List.pairwise_cons]
+      refine ⟨?_, ih (a + 1)⟩
+      intro j hj
+      have := ((mem_zeroFrom (a + 1) xs j).1 hj).1
+      omega
+    · exact ih (a + 1)
+
+theorem mem_zero (xs : List Nat) (i : Nat) : i ∈ zero xs ↔ xs[i]? = some 0 := by
+  rw [zero, mem_zeroFrom]; simp
+
+theorem zero_pairwise (xs : List Nat) : (zero xs).Pairwise (· < ·) := zeroFrom_pairwise 0 xs
+
+theorem foldl_max_spec (xs : List Nat) (a : Nat) :
+    (xs.foldl Nat.max a = a ∨ xs.foldl Nat.max a ∈ xs) ∧ a ≤ xs.foldl Nat.max a ∧
+      ∀ x ∈ xs, x ≤ xs.foldl Nat.max a := by
+  induction xs generalizing a with
+  | nil => simp
+  | cons y ys ih =>
+    obtain ⟨h1, h2, h3⟩ := ih (Nat.max a y)
+    simp only [List.foldl_cons]
+    have hmax : Nat.max a y = a ∨ Nat.max a y = y := by
+      show Max.max a y = a ∨ Max.max a y = y
+      omega
+    have ha : a ≤ Nat.max a y := Nat.le_max_left a y
+    have hy : y ≤ Nat.max a y := Nat.le_max_right a y
+    refine ⟨?_, by omega, ?_⟩
+    · rcases h1 with h1 | h1
+      · rcases hmax with hm | hm
+        · left; rw [h1, hm]
+        · right; rw [h1, hm]; simp
+      · right; exact List.mem_cons_of_mem _ h1
+    · intro x hx
+      rcases List.mem_cons.1 hx with rfl | hx
+      · omega
+      · exact h3 x hx
+
+theorem max_eq_none_iff (xs : List Nat) : Prim.max xs = none ↔ xs = [] := by
+  cases xs <;> simp [Prim.max]
+
+theorem max_eq_some (xs : List Nat) (m : Nat) (h : Prim.max xs = some m) :
+    m ∈ xs ∧ ∀ x ∈ xs, x ≤ m := by
+  cases xs with
+  | nil => simp [Prim.max] at h
+  | cons a ys =>
+    simp only [Prim.max, Option.some.injEq] at h
+    subst h
+    obtain ⟨h1, h2, h3⟩ := foldl_max_spec ys a
+    constructor
+    · rcases h1 with h1 | h1
+      · rw [h1]; simp
+      · exact List.mem_cons_of_mem _ h1
+    · intro x hx
+      rcases List.mem_cons.1 hx with rfl | hx
+      · exact h2
+      · exact h3 x hx
+
+/-! ### segmentedSum -/
+
+theorem sum_take_add (x : List Nat) (p s : Nat) :
+    (x.take (p + s)).sum = (x.take p).sum + ((x.drop p).take s).sum := by
+  rw [List.take_add, List.sum_append]
+
+theorem sum_take_mono (l : List Nat) {k k' : Nat} (h : k ≤ k') :
+    (l.take k).sum ≤ (l.take k').sum := by
+  obtain ⟨d, rfl⟩ : ∃ d, k' = k + d := ⟨k' - k, by omega⟩
+  rw [sum_take_add]; omega
+
+theorem sum_take_le (l : List Nat) (k : Nat) : (l.take k).sum ≤ l.sum := by
+  have := sum_take_mono l (Nat.le_max_left k l.length)
+  rwa [List.take_of_length_le (Nat.le_max_right k l.length)] at this
+
+theorem sum_take_succ (l : List Nat) (k : Nat) (hk : k < l.length) :
+    (l.take (k + 1)).sum = (l.take k).sum + l[k] := by
+  rw [List.take_add_one, List.sum_append, List.getElem?_eq_getElem hk]
+  simp
+
+theorem getRange_from_one_cumulativeSum (sizes : List Nat) :
+    getRange (cumulativeSum sizes) (.from 1) =
+      .ok ((List.range sizes.length).map (fun k => (sizes.take (k + 1)).sum)) := by
+  rw [getRange_eq]
+  simp only [toRange, cumulativeSum_length]
+  rw [slice_ok _ _ _ (by rw [cumulativeSum_length]; omega)]
+  congr 1
+  apply List.ext_getElem?
+  intro k
+  rw [List.getElem?_take, List.getElem?_drop, List.getElem?_map]
+  by_cases hk : k < sizes.length
+  · rw [if_pos (by omega), cumulativeSum_getElem? _ _ (by omega), List.getElem?_range hk,
+      Nat.add_comm 1 k]
+    rfl
+  · rw [if_neg (by omega), List.getElem?_eq_none (by simpa using Nat.le_of_not_lt hk)]
+    rfl
+
+theorem getRange_to_cumulativeSum (sizes : List Nat) :
+    getRange (cumulativeSum sizes) (.to sizes.length) =
+      .ok ((List.range sizes.length).map (fun k => (sizes.take k).sum)) := by
+  rw [getRange_eq]
+  simp only [toRange]
+  rw [slice_ok _ _ _ (by rw [cumulativeSum_length]; omega)]
+  congr 1
+  apply List.ext_getElem?
+  intro k
+  rw [List.getElem?_take, List.getElem?_drop, List.getElem?_map]
+  by_cases hk : k < sizes.length
+  · rw [if_pos (by omega), cumulativeSum_getElem? _ _ (by omega), List.getElem?_range hk,
+      Nat.zero_add]
+    rfl
+  · rw [if_neg (by omega), List.getElem?_eq_none (by simpa using Nat.le_of_not_lt hk)]
+    rfl
+
+theorem gatherP_map_of {β : Type} (s : List α) (l : List β) (f : β → Nat) (g : β → α)
+    (h : ∀ k ∈ l, s[f k]? = some (g k)) : gatherP s (l.map f) = l.map g := by
+  induction l with
+  | nil => rfl
+  | cons a l ih =>
+    have ih' := ih (fun k hk => h k (by simp [hk]))
+    simp only [gatherP] at ih' ⊢
+    simp [h a (by simp), ih']
+
+theorem subP_map_of {β : Type} (l : List β) (g1 g2 : β → Nat) (h : ∀ k ∈ l, g2 k ≤ g1 k) :
+    subP (l.map g1) (l.map g2) = .ok (l.map (fun k => g1 k - g2 k)) := by
+  induction l with
+  | nil => rfl
+  | cons a l ih =>
+    simp only [List.map_cons]
+    rw [subP, if_pos (h a (by simp)), ih (fun k hk => h k (by simp [hk]))]
+    rfl
+
+/-- the sum of the `k`-th consecutive segment of `x` (segment lengths `sizes`) -/
+def segSum (sizes x : List Nat) (k : Nat) : Nat :=
+  ((x.drop (sizes.take k).sum).take (sizes.getD k 0)).sum
+
+theorem segmentedSum_ok (sizes x : List Nat) (h : sizes.sum ≤ x.length) :
+    segmentedSum sizes x = .ok ((List.range sizes.length).map (segSum sizes x)) := by
+  unfold segmentedSum
+  simp only [cumulativeSum_length, Nat.add_sub_cancel, getRange_from_one_cumulativeSum,
+    getRange_to_cumulativeSum, Res.ok_bind]
+  have hin : ∀ k, (sizes.take k).sum ≤ x.length := fun k => Nat.le_trans (sum_take_le sizes k) h
+  have hmem1 : ∀ i ∈ (List.range sizes.length).map (fun k => (sizes.take (k + 1)).sum),
+      i < (cumulativeSum x).length := by
+    intro i hi
+    obtain ⟨k, _, rfl⟩ := List.mem_map.1 hi
+    rw [cumulativeSum_length]; have := hin (k + 1); omega
+  have hmem2 : ∀ i ∈ (List.range sizes.length).map (fun k => (sizes.take k).sum),
+      i < (cumulativeSum x).length := by
+    intro i hi
+    obtain ⟨k, _, rfl⟩ := List.mem_map.1 hi
+    rw [cumulativeSum_length]; have := hin k; omega
+  rw [gather_ok _ _ hmem1, gather_ok _ _ hmem2]
+  simp only [Res.ok_bind]
+  rw [gatherP_map_of (cumulativeSum x) _ _ (fun k => (x.take (sizes.take (k + 1)).sum).sum)
+      (fun k _ => cumulativeSum_getElem? x _ (hin (k + 1))),
+    gatherP_map_of (cumulativeSum x) _ _ (fun k => (x.take (sizes.take k).sum).sum)
+      (fun k _ => cumulativeSum_getElem? x _ (hin k))]
+  rw [sub, if_pos (by simp), subP_map_of]
+  · congr 1
+    apply List.map_congr_left
+    intro k hk
+    have hk' : k < sizes.length := List.mem_range.1 hk
+    rw [segSum, sum_take_succ sizes k hk', sum_take_add, Nat.add_sub_cancel_left,
+      List.getD_eq_getElem?_getD, List.getElem?_eq_getElem hk']
+    rfl
+  · intro k _
+    exact sum_take_mono x (sum_take_mono sizes (Nat.le_succ k))
+
+theorem segmentedSum_panic (sizes x : List Nat) (h : x.length < sizes.sum) :
+    segmentedSum sizes x = .panic "gather:index" := by
+  unfold segmentedSum
+  simp only [cumulativeSum_length, Nat.add_sub_cancel, getRange_from_one_cumulativeSum,
+    getRange_to_cumulativeSum, Res.ok_bind]
+  rw [gather_panic]
+  · rfl
+  · refine ⟨sizes.sum, ?_, by rw [cumulativeSum_length]; omega⟩
+    have hne : 0 < sizes.length := by
+      cases sizes with
+      | nil => simp at h
+      | cons _ _ => simp
+    rw [List.mem_map]
+    refine ⟨sizes.length - 1, List.mem_range.2 (by omega), ?_⟩
+    rw [List.take_of_length_le (by omega)]
+
+/-! ### segmentedArange -/
+
+theorem zipWith_sub_range'_replicate (a s : Nat) :
+    List.zipWith (· - ·) (List.range' a s) (List.replicate s a) = List.range s := by
+  apply List.ext_getElem
+  · simp
+  · intro k h1 h2
+    simp
+
+theorem zip_range'_replicate_le (a s : Nat) :
+    ∀ p ∈ (List.range' a s).zip (List.replicate s a), p.2 ≤ p.1 := by
+  intro p hp
+  have := List.of_mem_zip (a := p.1) (b := p.2) hp
+  have h1 := List.mem_range'_1.1 this.1
+  have h2 := (List.mem_replicate.1 this.2).2
+  omega
+
+theorem repeatP_cons_cons (k : Nat) (ks : List Nat) (a : α) (x : List α) :
+    repeatP (k :: ks) (a :: x) = List.replicate k a ++ repeatP ks x := rfl
+
+theorem segArange_aux (sizes : List Nat) (a : Nat) :
+    (∀ p ∈ (List.range' a sizes.sum).zip
+        (repeatP sizes ((cumsumFrom a sizes).take sizes.length)), p.2 ≤ p.1) ∧
+    List.zipWith (· - ·) (List.range' a sizes.sum)
+        (repeatP sizes ((cumsumFrom a sizes).take sizes.length)) =
+      (sizes.map List.range).flatten := by
+  induction sizes generalizing a with
+  | nil => simp [repeatP]
+  | cons s rest ih =>
+    obtain ⟨ih1, ih2⟩ := ih (a + s)
+    have hlen : (List.range' a s).length = (List.replicate s a).length := by simp
+    have hsplit : List.range' a (s + rest.sum) = List.range' a s ++ List.range' (a + s) rest.sum := by
+      rw [← List.range'_append]; simp
+    simp only [cumsumFrom, List.length_cons, List.take_succ_cons, repeatP_cons_cons,
+      List.sum_cons, List.map_cons, List.flatten_cons]
+    rw [hsplit]
+    constructor
+    · rw [List.zip_append hlen]
+      intro p hp
+      rcases List.mem_append.1 hp with hp | hp
+      · exact zip_range'_replicate_le a s p hp
+      · exact ih1 p hp
+    · rw [List.zipWith_append hlen, zipWith_sub_range'_replicate, ih2]
+
+theorem repeat_ok' (counts : List Nat) (x : List α) (h : counts.length = x.length) :
+    «repeat» counts x = .ok (repeatP counts x) := by
+  unfold «repeat»; rw [if_pos h]
+
+theorem segmentedArange_ok (sizes : List Nat) :
+    segmentedArange sizes = .ok ((sizes.map List.range).flatten) := by
+  unfold segmentedArange
+  have hget : get (cumulativeSum sizes) sizes.length = .ok sizes.sum := by
+    have := cumulativeSum_getElem? sizes sizes.length (Nat.le_refl _)
+    rw [List.take_of_length_le (Nat.le_refl _)] at this
+    simp [get, this, Res.ofOption]
+  have hpfx : getRange (cumulativeSum sizes) (.to sizes.length) =
+      .ok ((cumsumFrom 0 sizes).take sizes.length) := by
+    rw [getRange_eq]
+    simp only [toRange]
+    rw [slice_ok _ _ _ (by rw [cumulativeSum_length]; omega)]
+    simp [cumulativeSum]
+  have hplen : ((cumsumFrom 0 sizes).take sizes.length).length = sizes.length := by
+    rw [List.length_take, cumsumFrom_length]; omega
+  simp only [cumulativeSum_length, checkedSub, Nat.add_sub_cancel]
+  rw [if_pos (by omega)]
+  simp only [Res.ok_bind, hget, hpfx, repeat_ok' _ _ hplen.symm, arange_ok 0 _ (Nat.zero_le _),
+    Nat.sub_zero]
+  obtain ⟨h1, h2⟩ := segArange_aux sizes 0
+  rw [sub, if_pos (by rw [repeatP_length _ _ hplen.symm]; simp), subP_ok _ _ h1, h2]
+
+/-! ### sortBy -/
+
+theorem gatherP_range (xs : List α) : gatherP xs (List.range xs.length) = xs := by
+  have hin : ∀ i ∈ List.range xs.length, i < xs.length := fun i hi => List.mem_range.1 hi
+  apply List.ext_getElem?
+  intro k
+  by_cases hk : k < xs.length
+  · rw [gatherP_getElem? xs _ hin k (by simpa using hk)]
+    simp
+  · rw [List.getElem?_eq_none (by rw [gatherP_length xs _ hin]; simpa using Nat.le_of_not_lt hk),
+      List.getElem?_eq_none (Nat.le_of_not_lt hk)]
+
+theorem sortBy_ok (B : Backend) (xs : List α) (key : List Nat)
+    (hperm : (B.argsort key).Perm (List.range key.length)) (hlen : xs.length = key.length) :
+    sortBy B xs key = .ok (gatherP xs (B.argsort key)) ∧ (gatherP xs (B.argsort key)).Perm xs := by
+  constructor
+  · rw [sortBy, argsort, gather_ok]
+    intro i hi
+    have := List.mem_range.1 (hperm.mem_iff.1 hi)
+    omega
+  · have := hperm.filterMap (fun i => xs[i]?)
+    rw [← hlen] at this
+    have h2 := gatherP_range xs
+    unfold gatherP at h2 ⊢
+    rwa [h2] at this
+
+/-! ### bundled forms used by the headline theorems -/
+
+theorem zipWith_getElem?_of_lt {β γ : Type} (f : α → β → γ) (xs : List α) (ys : List β) (k : Nat)
+    (h1 : k < xs.length) (h2 : k < ys.length) :
+    (List.zipWith f xs ys)[k]? = some (f xs[k] ys[k]) := by
+  rw [List.getElem?_eq_getElem (by simp only [List.length_zipWith]; omega), List.getElem_zipWith]
+
+theorem getRange_spec_of (xs : List α) (r : RangeForm) (a b : Nat)
+    (hab : toRange xs.length r = (a, b)) :
+    (a ≤ b ∧ b ≤ xs.length →
+      getRange xs r = .ok ((xs.drop a).take (b - a)) ∧
+      ((xs.drop a).take (b - a)).length = b - a ∧
+      ∀ k, k < b - a → ((xs.drop a).take (b - a))[k]? = xs[a + k]?) ∧
+    (¬ (a ≤ b ∧ b ≤ xs.length) → getRange xs r = .panic "slice:range") := by
+  rw [getRange_eq, hab]
+  exact ⟨fun h => ⟨slice_ok xs a b h, slice_length xs a b h, fun k hk => slice_getElem? xs a b k hk⟩,
+    slice_panic xs a b⟩
+
+theorem setRange_spec_of (xs : List α) (r : RangeForm) (v : List α) (a b : Nat)
+    (hab : toRange xs.length r = (a, b)) :
+    (a ≤ b ∧ b ≤ xs.length → v.length = b - a →
+      setRange xs r v = .ok (xs.take a ++ v ++ xs.drop b) ∧
+      (xs.take a ++ v ++ xs.drop b).length = xs.length ∧
+      ∀ k, (xs.take a ++ v ++ xs.drop b)[k]? = if a ≤ k ∧ k < b then v[k - a]? else xs[k]?) ∧
+    (¬ (a ≤ b ∧ b ≤ xs.length) → setRange xs r v = .panic "set_range:range") ∧
+    (a ≤ b ∧ b ≤ xs.length → v.length ≠ b - a → setRange xs r v = .panic "set_range:len") := by
+  have ha : (toRange xs.length r).1 = a := by rw [hab]
+  have hb : (toRange xs.length r).2 = b := by rw [hab]
+  refine ⟨fun h hv => ⟨?_, splice_length xs v a b h hv, splice_getElem? xs v a b h hv⟩, ?_, ?_⟩
+  · have := setRange_ok xs r v (by rw [ha, hb]; exact h) (by rw [ha, hb]; exact hv)
+    rwa [ha, hb] at this
+  · intro h
+    exact setRange_panic_range xs r v (by rw [ha, hb]; exact h)
+  · intro h hv
+    exact setRange_panic_len xs r v (by rw [ha, hb]; exact h) (by rw [ha, hb]; exact hv)
+
+theorem scatter_panic (B : Backend) (xs : List α) (idx : List Nat) (n : Nat) (hne : xs ≠ [])
+    (h : ¬ (xs.length ≤ idx.length ∧ ∀ i ∈ idx.take xs.length, i < n)) :
+    scatter B xs idx n = .panic "scatter:index" := by
+  cases xs with
+  | nil => exact absurd rfl hne
+  | cons x0 tl => exact scatter_cons_panic B x0 tl idx n h
+
+theorem scatter_nil_spec (B : Backend) (idx : List Nat) (n : Nat) :
+    (idx = [] → scatter B ([] : List α) idx n = .ok []) ∧
+    (idx ≠ [] → scatter B ([] : List α) idx n = .panic "scatter:assert-empty") ∧
+    (∀ r, scatter B ([] : List α) idx n = .ok r ↔ idx = [] ∧ r = []) := by
+  cases idx with
+  | nil =>
+    refine ⟨fun _ => rfl, fun h' => absurd rfl h', fun r => ⟨?_, ?_⟩⟩
+    · intro e
+      have e' : Res.ok [] = Res.ok r := e
+      injection e' with e'
+      exact ⟨rfl, e'.symm⟩
+    · rintro ⟨_, rfl⟩; rfl
+  | cons i idx =>
+    refine ⟨fun h' => (by cases h'), fun _ => rfl, fun r => ⟨?_, ?_⟩⟩
+    · intro e
+      have e' : Res.panic "scatter:assert-empty" = Res.ok r := e
+      cases e'
+    · rintro ⟨h', _⟩; cases h'
+
+theorem scatterAssign_ok_spec (self : List α) (ixs : List Nat) (values : List α)
+    (h : ∀ p ∈ ixs.zip values, p.1 < self.length) :
+    ∃ r, scatterAssign self ixs values = .ok r ∧ r.length = self.length ∧
+      (∀ k, r[k]? = if k < self.length then
+          (((ixs.zip values).findRev? (fun p => p.1 == k)).map (·.2)).or self[k]? else none) ∧
+      (∀ j (h1 : j < ixs.length) (h2 : j < values.length),
+        (∀ j' (h1' : j' < ixs.length), j' < values.length → j < j' → ixs[j'] ≠ ixs[j]) →
+        r[ixs[j]]? = some values[j]) ∧
+      (∀ k, (∀ j (h1 : j < ixs.length), j < values.length → ixs[j] ≠ k) → r[k]? = self[k]?) := by
+  refine ⟨_, scatterAssign_ok self ixs values h, writeAll_length _ _,
+    fun k => writeAll_getElem? self _ k, ?_, ?_⟩
+  · intro j h1 h2 hlast
+    have hj : j < (ixs.zip values).length := by simp only [List.length_zip]; omega
+    have hmem : (ixs.zip values)[j] ∈ ixs.zip values := List.getElem_mem hj
+    have := writeAll_getElem?_of_last self (ixs.zip values) ixs[j]
+      (by simpa using h _ hmem) j hj (by simp) (by
+        intro j' h' hlt
+        simp only [List.length_zip] at h'
+        simp only [List.getElem_zip]
+        exact hlast j' (by omega) (by omega) hlt)
+    simpa using this
+  · intro k hk
+    apply writeAll_getElem?_of_not_mem
+    intro p hp
+    obtain ⟨j, hj, rfl⟩ := List.getElem_of_mem hp
+    simp only [List.length_zip] at hj
+    simp only [List.getElem_zip]
+    exact hk j (by omega) (by omega)
+
+theorem repeat_flatten_length (counts : List Nat) (x : List α) (h : counts.length = x.length) :
+    ((List.zipWith List.replicate counts x).flatten).length = counts.sum := by
+  rw [← repeatP_eq, repeatP_length counts x h]
+
+theorem segmentedSum_ok_spec (sizes x : List Nat) (h : sizes.sum ≤ x.length) :
+    ∃ r, segmentedSum sizes x = .ok r ∧ r.length = sizes.length ∧
+      ∀ k (hk : k < sizes.length),
+        r[k]? = some (((x.drop (sizes.take k).sum).take sizes[k]).sum) := by
+  refine ⟨_, segmentedSum_ok sizes x h, by simp, ?_⟩
+  intro k hk
+  rw [List.getElem?_map, List.getElem?_range hk]
+  simp [segSum, List.getD_eq_getElem?_getD, List.getElem?_eq_getElem hk]
+
+theorem sub_ok_getElem? (xs ys r : List Nat) (h : sub xs ys = .ok r) :
+    r.length = xs.length ∧
+      ∀ k (h1 : k < xs.length) (h2 : k < ys.length), r[k]? = some (xs[k] - ys[k]) := by
+  obtain ⟨hlen, _, rfl⟩ := (sub_ok_iff xs ys r).1 h
+  refine ⟨by simp only [List.length_zipWith]; omega, ?_⟩
+  intro k h1 h2
+  exact zipWith_getElem?_of_lt _ xs ys k h1 h2
+
+theorem sub_panic (xs ys : List Nat)
+    (h : ¬ (xs.length = ys.length ∧
+      ∀ k (h1 : k < xs.length) (h2 : k < ys.length), ys[k] ≤ xs[k])) :
+    ∃ s, sub xs ys = .panic s := by
+  by_cases hlen : xs.length = ys.length
+  · refine ⟨_, sub_panic_underflow xs ys hlen ?_⟩
+    apply Classical.byContradiction
+    intro hn
+    apply h
+    refine ⟨hlen, ?_⟩
+    intro k h1 h2
+    apply Classical.byContradiction
+    intro hlt
+    exact hn ⟨k, h1, h2, by omega⟩
+  · exact ⟨_, sub_panic_len xs ys hlen⟩
+
+theorem sortBy_ok_spec (B : Backend) (xs : List α) (key : List Nat)
+    (hperm : (B.argsort key).Perm (List.range key.length)) (hlen : xs.length = key.length) :
+    ∃ r, sortBy B xs key = .ok r ∧ r.Perm xs ∧ r.length = xs.length ∧
+      ∀ k (hk : k < (B.argsort key).length), r[k]? = xs[(B.argsort key)[k]]? := by
+  obtain ⟨h1, h2⟩ := sortBy_ok B xs key hperm hlen
+  have hin : ∀ i ∈ B.argsort key, i < xs.length := by
+    intro i hi
+    have := List.mem_range.1 (hperm.mem_iff.1 hi)
+    omega
+  exact ⟨_, h1, h2, h2.length_eq, gatherP_getElem? xs _ hin⟩
+
+end OH.Prim
